@@ -64,6 +64,9 @@ type Ctx struct {
 	pendingObs  []pendingOb
 	concrete    *replayFile
 	liftGuard   *Term
+	mergeStat   map[string]int
+	plainErr    *ErrObj
+	inInit      bool
 	dbgModel    map[string]uint64
 	dbgPendingModel map[string]uint64
 	dbgChoices  map[string]int
@@ -340,6 +343,16 @@ func (c *Ctx) mergeHeaps(g *Term, a, b *Heap) *Heap {
 				continue
 			}
 			if oa.v == ob.v {
+				continue
+			}
+			if c.mergeStat != nil {
+				before := len(c.tt.all)
+				n.set(id, &Obj{v: c.merge(g, oa.v, ob.v), typ: oa.typ, label: oa.label, birth: oa.birth})
+				key := oa.label
+				if oa.typ != nil {
+					key += ":" + oa.typ.String()
+				}
+				c.mergeStat[key] += len(c.tt.all) - before
 				continue
 			}
 			n.set(id, &Obj{v: c.merge(g, oa.v, ob.v), typ: oa.typ, label: oa.label, birth: oa.birth})
